@@ -250,15 +250,23 @@ def gen_plan_b(ch: Chooser) -> dict[str, Any]:
             actions.append({'t': round(t + ch.choice([0.0, 0.01, 0.5]), 6), 'do': 'patch', 'name': 'b',
                             'patch': {'spec': {'a': counter}}})
     reuse = False
+    alternates = False
     if ch.bool(0.5):
-        actions.append({'t': ch.float(4.0, t), 'do': 'revoke', 'op': 'op1'})
+        t_rev = ch.float(4.0, t)
+        actions.append({'t': t_rev, 'do': 'revoke', 'op': 'op1'})
         reuse = ch.bool(0.25)
+        if not reuse and ch.bool(0.3):
+            # two identities offered in turn, both revoked one after the other: the third login offers the first again
+            alternates = True
+            actions.append({'t': round(t_rev + ch.choice([1.0, 3.0, 8.0]), 6), 'do': 'revoke', 'op': 'op1'})
+            for k in range(4):
+                actions.append({'t': round(t_rev + 0.5 + 3.0 * k, 6), 'do': 'patch', 'name': 'b', 'patch': {'spec': {'z': k}}})
     actions.sort(key=lambda a: a['t'])
     return {
         'harness': 'B', 'until': t + 60.0, 'n_err': n_err, 'code': code,
         'kinds': [{'plural': 'widgets'}],
         'operators': [{'id': 'op1', 'standalone': True, 'settings': settings, 'handlers': handlers,
-                       'login_reuses_revoked': reuse}],
+                       'login_reuses_revoked': reuse, 'login_alternates': alternates}],
         'objects': [{'kind': 'widgets', 'body': {'metadata': {'name': n}, 'spec': {'a': 0}}} for n in ('a', 'b')],
         'actions': actions,
         'net': {'latency_seed': ch.int(0, 1 << 30), 'lat_lo': 0.001, 'lat_hi': 0.01,
@@ -291,6 +299,24 @@ def oracle_b(run: runner.Run, oc: Outcome) -> None:
                            f"{len(late)} request(s) were started on the invalidated credentials after the login handler "
                            f"returned them again at t={relogin[0]:.4f}")
                 oc.nontrivial = True
+        return
+    if spec.get('login_alternates'):
+        # Credentials invalidated earlier (not only the latest ones) must never be used again when offered anew.
+        late = []
+        for r in run.net.requests:
+            t_inv = getattr(r.session, 'revoked_at', None)
+            if t_inv is None:
+                continue
+            noticed = [e[1] for e in run.sim.trace if e[2] == 'rsp' and e[4] == 401 and e[1] >= t_inv]
+            relogin = [t for (t, actor, tok) in run.logins if noticed and t > noticed[0]]
+            if relogin and r.t_sent > relogin[0] + EPS:
+                late.append(r)
+        storm = [a for a in run.net.closed_session_attempts]
+        if late or len(storm) > 5 or len(run.logins) > 10:
+            oc.add('C12/invalid-credentials-reused', 'earlier-credentials-readded',
+                   f"{len(late)} request(s) were started on credentials invalidated earlier, {len(storm)} attempts were made on "
+                   f"their closed sessions, {len(run.logins)} logins: {[(round(t, 3), tok) for (t, a, tok) in run.logins][:8]}")
+        oc.nontrivial = True
         return
     if op.exit is not None:
         oc.add('C12/operator-stopped', op.exit[1], f"the operator ended ({op.exit}) because of API errors on one object")
